@@ -116,7 +116,7 @@ PO5_AUDIT = {
         'last_block < states.len(): it starts at len - 1, is incremented only together with add_state and decremented only while > 0',
     'pattern_matching::myers::long::States::<T>::step|overflow-sub|Index<I>>::index(arg1.states,x0).dist,x1':
         'isize difference of a block distance (<= pattern length + text position) and a carry in {-1,0,1}',
-    'pattern_matching::myers::long::States::<T>::step|bounds|idx=Add(1,x0).0,len=PtrMetadata(arg3)':
+    'pattern_matching::myers::long::States::<T>::step|bounds|idx=P[1 + x0].0,len=PtrMetadata(arg3)':
         'guarded by last_block < self.max_block and peq has max_block + 1 entries (one per block)',
     'pattern_matching::myers::long::States::<T>::step|overflow_neg|x0':
         'carry is in {-1, 0, 1}',
